@@ -193,6 +193,8 @@ class C05Machine(Machine):
             cp = cp[:len(cp) - n_synth] + cp[len(cp) - n_synth::step]
             up = up[:len(up) - n_synth] + up[len(up) - n_synth::step]
         self.strings, self.pairs = observe.probe_sets(cp, up, config["id_pool"], [config["delimiter"]])
+        ok = [x for x in self.strings if x and not any(ch in x for ch in "\r\n\x00")]
+        self.bulk_cells = ok[::max(1, len(ok) // 24)][:30]
         self.snap = None
         self.last_record_obj = None
         self.last_record_dump = None
@@ -742,6 +744,19 @@ class C05Machine(Machine):
         self.note_state(self.model.keys(), op["op"], outcome)
         return {"result": result, "model": outcome, "snap": observe.stable_digest(post)}
 
+    def _extras(self, conv):
+        if getattr(self, "_xdir", None) is None:
+            self._xdir = observe.scratch_dir("c05x_")
+        return {"written_epm": observe.written_extended_prefix_map(self.curies, conv, self._xdir),
+                "bulk": observe.bulk_answers(conv, self.bulk_cells, self._xdir)}
+
+    def close(self):
+        if getattr(self, "_xdir", None) is not None:
+            import shutil
+
+            shutil.rmtree(self._xdir, ignore_errors=True)
+            self._xdir = None
+
     def _flood(self, op):
         """Thousands of distinct throw-away lookups through every kind of query (what converting a big
         column does); a spread of them is asked again - of the live and of the fresh converter - after
@@ -940,6 +955,12 @@ class C05Machine(Machine):
                 if want != got:
                     raise Violation(PROP, "fresh_mismatch", site,
                                     {"first_lookup_after_the_call": [m, list(a)], "fresh": want, "live": got, "op": op})
+        # the serialised form and the bulk functions are answers too (state that only the writers or only the
+        # bulk paths keep is invisible to the scalar queries)
+        lx, fx = self._extras(conv), self._extras(fresh)
+        if lx != fx:
+            raise Violation(PROP, "fresh_mismatch", site,
+                            {"written_or_bulk": True, "diff": observe.diff(fx, lx), "op": op})
         for m, a, kw in self.flood_sample:
             got, want = observe.callm(conv, m, *a, **kw), observe.callm(fresh, m, *a, **kw)
             if got != want:
@@ -980,9 +1001,11 @@ class C05Machine(Machine):
                     if ref is None or ref[0] != t or ref[1] != "":
                         bad.append(["parse_uri", u, None if ref is None else list(ref), t])
                 # ... and the expand side knows it too: every URI prefix of the record is among its expansions
-                allx = observe.callm(conv, "expand_pair_all", t, "1")
-                if allx != observe.ABSENT and (allx[0] != "ok" or not isinstance(allx[1], list) or (u + "1") not in allx[1]):
-                    bad.append(["expand_pair_all", [t, "1"], allx, u + "1"])
+                # (asked of records without a pattern only: whether "1" is a valid identifier is not the point)
+                if target.pattern is None:
+                    allx = observe.callm(conv, "expand_pair_all", t, "1")
+                    if allx != observe.ABSENT and (allx[0] != "ok" or not isinstance(allx[1], list) or (u + "1") not in allx[1]):
+                        bad.append(["expand_pair_all", [t, "1"], allx, u + "1"])
             if bad:
                 raise Violation(PROP, "new_record_unresolved", site, {"bad": bad[:6], "op": op})
 
